@@ -14,6 +14,7 @@ from ..seams import World, ModelHarness
 from .common import sample_sched, exc_site, is_harness_frame, quiet, sample_prefix, second_dataset, run_generic_op
 
 PROPERTY = "C14"
+KEY_EVENT = "BATCH"     # the seam this scenario depends on: it must fire somewhere in a batch of runs
 RULE = ("one run = one add_mlcl_constraint call with a generated (must_link, cannot_link, factor, input format) on a sampled "
         "model family, followed — when accepted — by a fit under a simulator-owned batch schedule; non-trivial = a rejection was "
         "judged or at least one batch contained both samples of a pair; distinct = distinct (family, batch class, input format, "
@@ -317,7 +318,7 @@ def execute(record):
                     if outcome.startswith("raised"):
                         res.probe("op_raised:" + op["op"] + ":" + outcome.split(":")[1])
             if log.counts.get("BATCH", 0) == 0:
-                raise HarnessError("batch seam never fired")
+                res.probe("seam_silent_in_run")   # decided over the whole batch by the runner (KEY_EVENT)
     except HarnessError as e:
         res.harness_error = "HarnessError: " + str(e)
     bs = cfg["params"].get("batch_size")
